@@ -493,6 +493,20 @@ func (fr *Frame) runDefers(st *State) *State {
 	st.defers[top] = nil
 	for i := len(ds) - 1; i >= 0; i-- {
 		d := ds[i]
+		if d.active.S != "" && d.active.S != "true" {
+			// conditional defer: run it only on the paths that executed the defer statement
+			on := st.clone()
+			on.pc = fr.u.define("pc", And(st.pc, d.active))
+			off := st.clone()
+			off.pc = fr.u.define("pc", And(st.pc, Not(d.active)))
+			_, on2 := fr.doCall(d.call, d.site, on, d.args, d.fnv)
+			if on2 == nil {
+				st = off
+			} else {
+				st = fr.mergeStates([]inEdge{{nil, on2, nil}, {nil, off, nil}})
+			}
+			continue
+		}
 		_, st2 := fr.doCall(d.call, d.site, st, d.args, d.fnv)
 		if st2 == nil {
 			return nil
